@@ -3,6 +3,7 @@
 /repo's history after fix commits were amended: commits are matched by a distinctive subject fragment."""
 import json, subprocess, re
 FRAG = {
+ "F48": "staking transactions obey the genesis period",
  "F45": "walks over block ids in the routing thread are bounded",
  "F46": "a block whose header carries id 0 is invalid",
  "F44": "handshake response carrying the node's own key must not authenticate",
